@@ -1,12 +1,15 @@
 """C18 — the `view!` macro renders what the template says.
 
 This property has its own flow (`main`, `setup`): cases are Rust SOURCE. A batch of templates is
-written to .build/c18/gen/shard_<k>.rs, compiled once (harness/macro, eight binaries built in
+written to .build/c18/gen/shard_<k>.rs, compiled once (harness/macro, sixteen binaries built in
 parallel, offline, against /repo's working tree), every template rendered three ways
 
     variant 0   view! { T }                        the macro as written (inert path where eligible)
     variant 1   view! { T + data-twin={..} on every element }   forced-dynamic twin (nothing is inert)
     variant 2   template! { T }                    the macro with the inert path disabled
+    variant 3   include_view!(file holding T)      (fixed cases)
+    10+v / 20+v the same variant through to_html_stream_in_order / _out_of_order (printed when they differ)
+    100+v       the same variant from the build with --cfg erase_components (fixed cases, sweeps, a sample)
 
 and the `to_html()` bytes compared (a) byte for byte with the extracted Coq model of both macro
 paths, (b) by an independent oracle: a Python HTML parser, normalisation (comments dropped,
@@ -23,6 +26,7 @@ import sys
 import time
 
 from . import common as C
+from . import c18_tables as T
 
 PID = "C18"
 PROPS_V = "theories/Props/Properties_C18.v"
@@ -32,7 +36,7 @@ ALLOWED_AXIOMS = []
 RUN_IMPORT = "Html.MacroRun"
 READY = True
 
-N_BINS = 8
+N_BINS = 16
 import hashlib as _hashlib
 _TAG_REPO = "" if C.REPO == "/repo" else "-" + _hashlib.sha1(C.REPO.encode()).hexdigest()[:8]
 GEN_DIR = os.path.join(C.BUILD, "c18" + _TAG_REPO, "gen")
@@ -41,29 +45,49 @@ RULE = ("templates drawn from one PRNG (VERIF_SEED) over the grammar: elements (
         "raw-text script/style/noscript, escapable raw text textarea/title) nested to depth 4, static attributes (string literal, no "
         "value), dynamic attributes ({String}, {bool}, {Option<String>}), class:name / class:name={bool}, "
         "class=(\"n\", bool) / class=([..], bool), style:prop=\"v\" / style:prop={..} / style=(\"p\", \"v\"), text "
-        "literals (also empty), {String} blocks, fragments, four fixed components (one returning its children, one wrapping "
-        "them, one with a slot, one with a prop) with attr:/class: spread onto them, the scope-class form, ordinary "
-        "elements with markup-significant text below <noscript> (static and dynamic, depth 2-3); strings from a pool with "
+        "literals (also empty), {String} blocks, fragments, twelve fixed components (children as Children / ChildrenFn / "
+        "ChildrenFragment / TypedChildren / a closure taking let:item / none / ONE text or format!() child; optional, "
+        "nostrip:, defaulted, generic props; one slot, several slots of one name with props, slot:name; clone:) with every "
+        "spread form attribute_absolute knows (attr:x, attr:class/style/aria-*, attr:a-b-c, class:, style:, plain attributes "
+        "after {..}), the scope-class form (literal or identifier; static and dynamic templates, next to components and nested "
+        "view!), ordinary elements with markup-significant text below <noscript>; since the anchor-coverage audit "
+        "(coverage/C18.md) also: a SWEEP naming every element constructor (113 HTML, 62 SVG + use/use_, 31 MathML) and "
+        "every typed attribute method (243 element-specific, 28 global, 68 on*, 48 aria in both spellings, 34 MathML) of "
+        "gen/c18_tables.py, each written statically below a wrapper; nodes with 15..34 and 257 children in every container "
+        "(element, top-level fragment, <>, component, slot); comments, a doctype, unquoted text; attributes that render "
+        "nothing (on:, prop:, use:, node_ref) and {..spread} inside otherwise static subtrees; {expr} children and "
+        "attribute values of other types (&str, Arc<str>, Oco borrowed/owned/counted, i32, f64, char, Option, Vec, (), "
+        "closures, bool.then, nested view!); inner_html of every representation; strings from a pool with "
         "markup-significant content (<, >, &, \", ', </p>, <!-- -->, entities, unicode, newlines, surrounding "
-        "blanks). Every template is compiled three times (as written, forced-dynamic twin, template!). A case is "
+        "blanks). Every template is compiled as written, as its forced-dynamic twin and (where ToTemplate allows) with "
+        "template!; the fixed cases also through include_view!; a third of them is additionally rendered through "
+        "to_html_stream_in_order / to_html_stream_out_of_order, and the fixed cases, the sweeps and a sample are compiled a "
+        "second time with --cfg erase_components. A case is "
         "non-trivial when the macro actually took its inert path somewhere in variant 0 (the model's view_html "
         "differs from its builder_html) or the template has a dynamic part; distinct = distinct template hash.")
 TRUSTED = [
     "Coq 8.16.1 kernel (coqc); no axioms: every theorem of Properties_C18.v is 'Closed under the global context'",
     "extraction to OCaml with ExtrOcamlBasic only, ocamlfind ocamlopt, extract/driver.ml sexp I/O",
-    "harness/macro (Rust): generated view!/template! invocations compiled by rustc against /repo's leptos (ssr); "
-    "to_html() of each; helper fns s/tb/fb/so/no supply the dynamic values",
+    "harness/macro (Rust): generated view!/template!/include_view! invocations compiled by rustc against /repo's leptos "
+    "(ssr; a second time with --cfg erase_components); to_html() and the two streaming exits of each; helper fns "
+    "s/tb/fb/so/no/sr/arc/oco/n/fl/ch supply the dynamic values",
     "modelled, not verified (transcribed in Html/Macro.v and compared byte for byte with the real output on every "
     "template of every run): the part of tachys that renders what the builder path constructs "
     "(HtmlElement::to_html_with_buf, attributes_to_html, Class/Style/AttributeValue::to_html, &str/String/tuple "
     "RenderHtml, InertElement, the SELF_CLOSING/ESCAPE_CHILDREN tables), html_escape::{encode_text, "
     "encode_double_quoted_attribute}, slice::sort_by on < 21 elements (insertion sort), str::trim on ASCII blanks",
     "compared only, NOT modelled (PARTIAL): rstml parsing of the macro input, token plumbing / quote!, component and "
-    "slot expansion (four fixed components incl. a slot and attr:/class: spreading are rendered and checked by the oracle only), spreads, events, "
-    "directives, properties, inner_html, the global class form (both rendered from generated templates and checked by the "
-    "oracle), nightly Static<..> strings",
+    "slot expansion (twelve fixed components are rendered and checked by the oracle only), spreads, events, "
+    "directives, properties, node refs, inner_html, comments, the doctype, the global class form, {expr} children that are "
+    "not strings (Option, Vec, (), closures, nested view!), the streaming exits to_html_async_with_buf (must render the "
+    "bytes of to_html(), otherwise judged by the oracle), the erase_components configuration (judged by the oracle), the "
+    "resolution of the `use_` spelling of SVG <use> (the case encoder hands the model `use`) and of a / script / title "
+    "by the parent's namespace",
+    "NOT exercised: the nightly-only Static<..> strings and view markers (no nightly toolchain), bind:, on:x:target, "
+    "directives with a parameter, prop:/on:/use: on components, the client-side halves (build / rebuild / hydrate)",
     "Html/MacroParse.v is a parser for the EMITTED subset (double-quoted attributes, <!..> comments, four raw-text "
-    "elements, the escapers' character references); the oracle's Python parser is written separately",
+    "elements, the escapers' character references); the oracle's Python parser is written separately (and reads "
+    "script / style / title / textarea below <svg> / <math> as ordinary elements: HTML rules for foreign content)",
 ]
 ASSUMPTIONS = [
     "a {String} block never evaluates to the empty string (tachys then renders a placeholder blank: finding F-C05 of "
@@ -76,8 +100,13 @@ ASSUMPTIONS = [
     "only with scripting disabled) are generated, compared byte for byte with the model and checked by the oracle with "
     "noscript read as an ordinary element, and the model theorem C18_element_ignores_parent_escape states that an "
     "element renders the same bytes whatever escape flag its parent hands down",
+    "the theorems do not cover a <script> below an SVG / MathML element (wf excludes it): which constructor renders it "
+    "depends on its siblings (open finding F-C18-j); such templates are judged by the oracle only",
     "tag and attribute names consist of ASCII letters, digits, '-', '_', ':'; void elements have no children; the "
     "obsolete <param> (void for the macro, unknown to tachys) is not used",
+    "an element has at most 26 attributes: beyond that the builder path stops with tachys' run-time "
+    "todo!(\"adding more than 26 attributes is not supported\") where the inert path renders (a documented limit; the "
+    "boundary 25/26 is exercised)",
     "class is read as a set of white-space separated tokens and style as a set of ';'-separated declarations "
     "(DOM reading): `class=\"  a   b \"` vs `class=\"a   b\"` and `style=\"a:b\"` vs `style=\"a:b;\"` — which is how "
     "the two paths differ textually — are the same attribute; attribute ORDER is not compared",
@@ -86,10 +115,13 @@ LEVEL_TEXT = ("Coq proofs, for all well-formed templates, that the HTML of the i
               "(and of any mixture the macro chooses) parses to the same element tree with the same attribute sets "
               "and text, that this tree is the denotation of the template, and that a static part renders as its "
               "own denotation in every context — about an executable Gallina transcription of both macro paths "
-              "and of the tachys renderer they target; tied to /repo by compiling hundreds of generated templates "
-              "per run (as written, forced-dynamic twin, template!) and comparing to_html() byte for byte with the "
+              "and of the tachys renderer they target; tied to /repo by compiling about 900 generated templates "
+              "per run (as written, forced-dynamic twin, template!, include_view!; a sweep over every element constructor "
+              "and typed attribute method; also through the streaming exits and in the erase_components configuration) and "
+              "comparing to_html() byte for byte with the "
               "extracted model, plus an independent Python parse-and-compare oracle. PARTIAL: rstml parsing, token "
-              "plumbing and component/slot expansion are compared only, not modelled.")
+              "plumbing, component/slot expansion, spreads, non-string blocks and the alternative exits / configuration are "
+              "compared only, not modelled; a <script> below SVG is outside the theorems (open finding F-C18-j).")
 LEVEL_NOTE = ("Trusted: Coq kernel, extraction + OCaml driver, rustc, the harness. Modelled not verified: tachys SSR "
               "of elements/attributes/strings/tuples, html_escape, small-slice sort_by. Partial: see trusted_base.")
 TECHNIQUE = ("Coq proof (structural induction over templates, a byte-at-a-time parser state machine) + differential "
@@ -147,6 +179,13 @@ STYLE_PVALS = ["red", "1px", "a b", "\"x\"", "0", "calc(1px + 2px)", "<"]
 NUM_LITS = [("3", "3"), ("2.50", "2.5"), ("1.0", "1"), ("1e3", "1000"), ("0.5", "0.5"), ("1_000", "1000"), ("0x10", "16"),
             ("2.5e-1", "0.25"), ("-1", "-1"), ("-2.50", "-2.5"), ("'c'", "c"), ("'<'", "<"), ("'\"'", "\""), ("10u8", "10"),
             ("1.5f32", "1.5"), ("100.0", "100"), ("0", "0")]
+
+
+RUST_CHARS = {"c": "'c'", "<": "'<'", "&": "'&'", "\"": "'\"'", " ": "' '", "é": "'é'"}
+NODE_REF_TYPES = {"div": "Div", "p": "P", "span": "Span"}
+
+
+GC_VALUE = "g<\"c"          # harness/macro/src/lib.rs: pub const GC
 
 
 def pick(rng, l):
@@ -412,6 +451,350 @@ def gen_component_template(rng):
     return [["e", "p", [["p", "id", ["lit", "k"]]], [["c", "Label", pick(rng, [x for x in TEXTS if x])], ["e", "b", [], [["t", "z"]]]]]]
 
 
+# ------------------------------------------------------------------------------------------ sweeps
+def _lit(n, v):
+    return ["p", n, ["lit", v]]
+
+
+def sweep_attr(rng, name):
+    if rng.random() < 0.2:
+        return ["p", name, ["none"]]
+    return _lit(name, pick(rng, VALUES))
+
+
+def sweep_children(rng, tag):
+    if tag in T.HTML_VOID:
+        return []
+    if tag in ("script", "style"):
+        return [["t", pick(rng, [x for x in RAW_TEXTS if x and "</" not in x])]]
+    if tag == "noscript":
+        return [["t", pick(rng, SAFE_TEXTS)]]
+    if tag in ("textarea", "title"):
+        return [["t", pick(rng, [x for x in TEXTS if x])]]
+    ch = [["t", pick(rng, [x for x in TEXTS if x])]]
+    if rng.random() < 0.4:
+        ch.append(["e", "b", [], [["t", pick(rng, HOT_TEXTS)]]])
+    return ch
+
+
+def chunks(l, n):
+    return [l[i:i + n] for i in range(0, len(l), n)]
+
+
+MAX_ATTRS = 24       # tachys: "adding more than 26 attributes is not supported" (run-time todo!() on the builder path)
+
+
+def gen_sweep(rng):
+    """EVERY element constructor and EVERY typed attribute method the macro can emit (gen/c18_tables.py), each
+    written statically below a wrapper (inert path) — its forced-dynamic twin and template! call the builder"""
+    out = []
+    els = []
+    for tag, attrs in T.HTML_ELEMENTS.items():
+        groups = chunks(attrs, MAX_ATTRS - 4) or [[]]
+        for g in groups:
+            a = [sweep_attr(rng, x) for x in g]
+            if not a and tag in T.HTML_VOID:
+                a = [_lit("id", "v")]            # <br/> without attributes is never inert
+            els.append(["e", tag, a, sweep_children(rng, tag)])
+    for g in chunks(els, 6):
+        out.append(dict(tpl=[["e", "div", [], g]], kind="sweep-html"))
+    for names, kind in ((T.GLOBAL_ATTRIBUTES, "sweep-global"), (T.GLOBAL_ON_ATTRIBUTES, "sweep-global-on")):
+        for g in chunks(names, 14):
+            out.append(dict(tpl=[["e", "div", [], [["e", "p", [sweep_attr(rng, x) for x in g], [["t", "x"]]]]]], kind=kind))
+    for k, g in enumerate(chunks(T.ARIA_ATTRIBUTES, 12)):
+        names = [x if (i + k) % 2 else x.replace("_", "-") for i, x in enumerate(g)]
+        out.append(dict(tpl=[["e", "div", [], [["e", pick(rng, ["p", "span", "input"]), [sweep_attr(rng, x) for x in names], []]]]],
+                        kind="sweep-aria"))
+    svg = [x for x in T.SVG_ELEMENTS if x not in ("script", "style", "svg")] + ["use", "use_"]
+    for g in chunks(svg, 8):
+        kids = []
+        for tag in g:
+            a = [_lit(pick(rng, ANY_ATTRS), pick(rng, VALUES))] if rng.random() < 0.7 else []
+            if tag in ("a", "title"):
+                a = [_lit("id", pick(rng, VALUES))]     # among siblings these are html::a / html::title: typed attributes
+            ch = [["t", pick(rng, HOT_TEXTS)]] if rng.random() < 0.5 else []
+            kids.append(["e", tag, a, ch])
+        out.append(dict(tpl=[["e", "div", [], [["e", "p", [_lit("id", "w")], [["e", "svg", [_lit("viewBox", "0 0 1 1")], kids]]]]]],
+                        kind="sweep-svg"))
+    for g in chunks(list(T.MATHML_ELEMENTS.items()), 8):
+        kids = []
+        for tag, attrs in g:
+            if tag == "math":
+                continue
+            ch = [["t", pick(rng, HOT_TEXTS)]] if rng.random() < 0.6 else []
+            kids.append(["e", tag, [sweep_attr(rng, x) for x in attrs], ch])
+        out.append(dict(tpl=[["e", "div", [], [["e", "p", [_lit("id", "w")],
+                                                 [["e", "math", [sweep_attr(rng, x) for x in T.MATHML_ELEMENTS["math"]], kids]]]]]],
+                        kind="sweep-mathml"))
+    return out
+
+
+# ------------------------------------------------------------------------------------------ wide nodes
+WIDTHS = [15, 16, 17, 18, 31, 32, 33, 34]
+
+
+def wide_children(rng, n, dyn_p):
+    out = []
+    for i in range(n):
+        r = rng.random()
+        if r < dyn_p:
+            out.append(["b", "d%d" % i])
+        elif r < 0.45 and not (out and out[-1][0] == "t"):
+            out.append(["t", "%d<" % i])
+        else:
+            out.append(["e", pick(rng, ["b", "i", "li"]), [] if rng.random() < 0.6 else [_lit("id", "i%d" % i)], [["t", str(i)]]])
+    return out
+
+
+def gen_wide_template(rng):
+    """a node with more than 16 child views (the macro nests tuples of 16): element children, a top-level fragment,
+    <>..</>, component and slot children; all static (one inert string when nested) or with dynamic parts"""
+    n = pick(rng, WIDTHS)
+    dyn_p = pick(rng, [0.0, 0.0, 0.15, 0.4])
+    kids = wide_children(rng, n, dyn_p)
+    r = rng.random()
+    if r < 0.25:
+        return [["e", "ul", [], kids]]                                           # top-level element: builder path
+    if r < 0.45:
+        return [["e", "div", [], [["e", "ul", [_lit("id", "w")], kids], ["t", "after"]]]]   # nested: inert when static
+    if r < 0.6:
+        return kids                                                              # top-level fragment
+    if r < 0.72:
+        return [["e", "div", [], [["f", kids], ["e", "hr", [], []]]]]                   # <>..</> below an element
+    if r < 0.86:
+        return [["c", pick(rng, ["Pass", "Wrap", "Typed"]), kids, []]]
+    return [["c", "Cond", kids, []]]
+
+
+# ------------------------------------------------------------------------------------------ other syntax
+RAW_WORDS = ["hello", "x1", "a & b", "world", "Ok", "a & b"]
+EVENTS = ["click", "input", "my-event", "keydown:capture"]     # on:x:undelegated does not compile (no event::undelegated)
+
+
+def sprinkle(rng, tpl, f_elem=None, f_kids=None):
+    """copy of tpl with f_elem(tag, attrs) -> attrs and f_kids(children, tag) -> children applied at every element / list"""
+    def go(l, tag):
+        out = []
+        for n in l:
+            if n[0] == "e":
+                attrs = f_elem(n[1], list(n[2])) if f_elem else n[2]
+                out.append(["e", n[1], attrs, go(n[3], n[1])])
+            elif n[0] == "f":
+                out.append(["f", go(n[1], None)])
+            else:
+                out.append(n)
+        return f_kids(out, tag) if f_kids else out
+    return go(tpl, None)
+
+
+def gen_syntax_template(rng):
+    """what else rstml hands the macro: comments, a doctype, unquoted text; attributes that are instructions to the
+    builder and render nothing (on:, prop:, use:, node_ref) and spreads ({..attrs}) — written into otherwise static
+    subtrees, where they decide whether the inert path may be taken"""
+    t = gen_template_static(rng) if rng.random() < 0.7 else gen_template(rng)
+    mode = pick(rng, ["comment", "raw", "silent", "silent", "spread", "mix"])
+
+    def kids(ch, tag):
+        if tag in RAW or tag == "title" or tag in VOID:
+            return ch
+        out = []
+        for c in ch:
+            if mode in ("comment", "mix") and rng.random() < 0.3:
+                out.append(["cm", pick(rng, ["c", "a -- b", "<b>", ""])])
+            if mode in ("raw", "mix") and c[0] == "t" and rng.random() < 0.5 and not (out and out[-1][0] == "r"):
+                out.append(["r", pick(rng, RAW_WORDS)])
+            else:
+                out.append(c)
+        if mode in ("comment", "mix") and rng.random() < 0.2:
+            out.append(["cm", "end"])
+        return out
+
+    def attrs(tag, a):
+        if tag in SVG_CHILD or tag == SVG_ROOT:
+            return a
+        if mode in ("silent", "mix") and rng.random() < 0.4:
+            r = rng.random()
+            if r < 0.35:
+                a.insert(rng.randrange(len(a) + 1), ["ev", pick(rng, EVENTS)])
+            elif r < 0.6:
+                a.insert(rng.randrange(len(a) + 1), ["pr", pick(rng, ["value", "checked", "my-prop"]), pick(rng, VALUES)])
+            elif r < 0.8 or tag not in NODE_REF_TYPES:
+                a.insert(rng.randrange(len(a) + 1), ["us"])
+            else:
+                a.insert(rng.randrange(len(a) + 1), ["nr", tag])
+        if mode in ("spread", "mix") and rng.random() < 0.35:
+            sp = [_lit(pick(rng, ["data-sp", "data-k2"]), pick(rng, VALUES))]
+            if rng.random() < 0.5:
+                sp.append(_lit("class", pick(rng, ["k", "k2 k3"])))
+            if rng.random() < 0.3:
+                sp.append(["ct", "spx", rng.random() < 0.7])
+            if rng.random() < 0.3:
+                sp.append(["p", "data-dy", ["str", pick(rng, VALUES)]])
+            a.append(["sx", sp])
+        return a
+
+    t = sprinkle(rng, t, attrs, kids)
+    if mode == "mix" and rng.random() < 0.5:
+        t = [["dt"]] + t
+    return t
+
+
+DV_KINDS = ["sr", "arc", "oco", "ocoo", "ococ", "clo", "osr", "cloopt"]
+CHAR_VALUES = list(RUST_CHARS)
+
+
+def gen_block(rng, depth):
+    r = rng.random()
+    if r < 0.3:
+        return ["k", pick(rng, ["sr", "arc", "oco", "ocoo", "ococ", "clo", "some"]), pick(rng, [x for x in TEXTS if x])]
+    if r < 0.4:
+        return ["k", "int", pick(rng, [0, 3, -1, 1000])]
+    if r < 0.45:
+        return ["k", "fl", pick(rng, [1.5, 0.25, -2.5])]
+    if r < 0.52:
+        return ["k", "chr", pick(rng, CHAR_VALUES)]
+    if r < 0.6:
+        return ["k", pick(rng, ["none", "unit"])]
+    if r < 0.68:
+        return ["k", "vec", [pick(rng, [x for x in TEXTS if x]) for _ in range(pick(rng, [0, 1, 2, 3]))]]
+    if r < 0.76:
+        return ["k", "then", pick(rng, [x for x in TEXTS if x]), rng.random() < 0.6]
+    # a nested view!: its own top level is the builder path, below it the inert path applies again
+    inner = gen_children(rng, depth, pick(rng, [0.0, 0.0, 0.3])) or [["t", "x"]]
+    inner = [c for c in inner if not (c[0] == "t" and c[1] == "")] or [["t", "x"]]
+    return ["k", "view", inner]
+
+
+def gen_values_template(rng):
+    """{expr} children and attribute values of other types than String: &str, Arc<str>, Oco (borrowed / owned /
+    counted), numbers, char, Option, Vec, (), closures, bool.then(..), nested view!"""
+    t = gen_template(rng)
+
+    def kids(ch, tag):
+        if tag in RAW or tag == "title" or tag in VOID or tag in SVG_CHILD or tag == SVG_ROOT:
+            return ch
+        out = []
+        for c in ch:
+            if c[0] == "b" or rng.random() < 0.25:
+                out.append(gen_block(rng, 1))
+                if c[0] == "e":
+                    out.append(c)
+            else:
+                out.append(c)
+        return out
+
+    def attrs(tag, a):
+        out = []
+        for x in a:
+            if x[0] == "p" and x[1] not in ("class", "style") and x[2][0] in ("str", "lit") and rng.random() < 0.5:
+                out.append(["p", x[1], ["dv", pick(rng, DV_KINDS), x[2][1]]])
+            elif x[0] == "p" and x[1] not in ("class", "style") and x[2][0] == "num" and x[2][2].lstrip("-").isdigit():
+                out.append(["p", x[1], ["dv", "int", x[2][2]]])
+            else:
+                out.append(x)
+        return out
+    t = sprinkle(rng, t, attrs, kids)
+    if not any(k in json.dumps(t) for k in ('"k"', '"dv"')):
+        t = t + [gen_block(rng, 1)]
+    return t
+
+
+def gen_spreads2(rng):
+    """every form attribute_absolute understands (component_builder.rs hands each attribute of a component to it)"""
+    out = gen_spreads(rng)
+    r = rng.random()
+    if r < 0.5:
+        out.append(["ss", pick(rng, STYLE_PROPS), pick(rng, ["red", "1px", "a b"])])
+    if rng.random() < 0.4:
+        out.append(["sa", "class", pick(rng, ["k", "k2 k3", "q\"r"])])
+    if rng.random() < 0.3:
+        out.append(["sa", "style", pick(rng, ["a:b", "x:y;z:w"])])
+    if rng.random() < 0.4:
+        out.append(["sa", pick(rng, ["aria-details", "aria-posinset"]), pick(rng, VALUES)])
+    if rng.random() < 0.4:
+        out.append(["sa", pick(rng, ["data-foo-bar", "data-x_y-z"]), pick(rng, VALUES)])
+    if rng.random() < 0.5:
+        for nm in rng.sample(["part", "nonce", "itemid", "data-after", "aria-setsize", "class", "style"], pick(rng, [1, 2, 3])):
+            v = {"class": "pk", "style": "m:n"}.get(nm) or pick(rng, VALUES)
+            out.append(["sp", nm, v])
+    if rng.random() < 0.25:
+        out.append(pick(rng, [["se", "click"], ["spr", "value", pick(rng, VALUES)], ["su"]]))
+    if rng.random() < 0.2:
+        out.append(["sb", [_lit("data-blk", pick(rng, VALUES))] + ([["ct", "bz", rng.random() < 0.7]] if rng.random() < 0.5 else [])])
+    seen, uniq = set(), []
+    for x in out:
+        if x[0] in ("se", "spr", "su", "sb"):
+            uniq.append(x)
+            continue
+        key = (x[0] in ("sa", "sd", "sp"), x[1]) if x[1] not in ("class", "style") else (x[0], x[1])
+        if key not in seen:
+            seen.add(key)
+            uniq.append(x)
+    return uniq
+
+
+def static_kids(rng, n_max=3):
+    kids = []
+    for _ in range(pick(rng, list(range(1, n_max + 1)))):
+        if rng.random() < 0.25:
+            if not (kids and kids[-1][0] == "t"):
+                kids.append(["t", pick(rng, [x for x in TEXTS if x])])
+        else:
+            e = gen_elem(rng, pick(rng, [0, 1]), pick(rng, [0.0, 0.0, 0.3]))
+            if e[1] in RAW or e[1] == "title":
+                e = ["e", "p", [], [["t", "x"]]]
+            kids.append(e)
+    return kids or [["e", "p", [["p", "class", ["lit", "s"]]], [["t", "a < b"]]]]
+
+
+def gen_component2_template(rng):
+    """the rest of component_builder.rs / slot_helper.rs: children kinds (ChildrenFragment, TypedChildren, a closure
+    taking `let:item`, none, ONE text or format!() child — passed without the closure), optional / nostrip: /
+    defaulted props, generics, several slots of one name with props, slot:name, every spread form"""
+    r = rng.random()
+    if r < 0.14:
+        txt = pick(rng, [x for x in TEXTS if x]) if rng.random() < 0.5 else pick(rng, [" lead", "trail ", " a<b ", "\tx", " ", "x\n"])
+        comp = ["c", pick(rng, ["Pass", "Wrap", "Typed", "Cond"]), [["t", txt]], gen_spreads2(rng)]
+        if comp[1] == "Pass":
+            comp[3] = []                          # a lone text has no element to carry attributes
+    elif r < 0.2:
+        comp = ["c", pick(rng, ["Wrap", "Typed"]), [["k", "fmt", pick(rng, [x for x in TEXTS if x])]], gen_spreads2(rng)]
+    elif r < 0.34:
+        comp = ["c", "Frag", [k for k in static_kids(rng, 5)], []]
+    elif r < 0.46:
+        comp = ["c", "Typed", static_kids(rng), gen_spreads2(rng)]
+    elif r < 0.6:
+        props = {"a": pick(rng, [None, "A", "a<\"b"]), "b": pick(rng, [None, "B", "&"]), "n": pick(rng, [None, 1, -3])}
+        if props["a"] is not None and rng.random() < 0.5:
+            props["nostrip"] = True
+        if rng.random() < 0.4:
+            props["nochildren"] = True
+        comp = ["c", "Opt", [] if props.get("nochildren") else static_kids(rng), gen_spreads2(rng), props]
+    elif r < 0.68:
+        props = {"ty": "i32", "v": pick(rng, [3, -1, 0])} if rng.random() < 0.5 else {"ty": "str", "v": pick(rng, [x for x in TEXTS if x])}
+        comp = ["c", "Gen", [], gen_spreads2(rng), props]
+    elif r < 0.84:
+        tabs = []
+        for i in range(pick(rng, [1, 2, 2, 3, 4])):
+            tabs.append(["sl", pick(rng, ["a", "b<", "c\"d", ""]) + str(i), None if rng.random() < 0.25 else
+                         ([["t", pick(rng, [x for x in TEXTS if x])]] if rng.random() < 0.3 else static_kids(rng))])
+        comp = ["c", "Tabs", tabs, gen_spreads2(rng)]
+    elif r < 0.94:
+        items = [pick(rng, [x for x in TEXTS if x]) for _ in range(pick(rng, [0, 1, 2, 3]))]
+        body = [["e", "li", [["p", "class", ["lit", "k"]]], [["t", "#"], ["k", "item"]]]]
+        if rng.random() < 0.5:
+            body.append(["e", "hr", [], []])
+        comp = ["c", "Each", body, [], {"items": items}]
+    else:
+        comp = ["c", "Cond", static_kids(rng), gen_spreads2(rng), {"rename": True}]
+    r = rng.random()
+    if r < 0.5:
+        return [comp]
+    if r < 0.85:
+        return [["e", pick(rng, ["main", "div"]), [], [comp] + ([gen_text(rng, 0.0)] if rng.random() < 0.5 else [])]]
+    return [["c", "Wrap", [["e", "div", [], [comp]]], []]]
+
+
 # hand-written corner cases that always run (also the witnesses of the findings)
 FIXED = [
     ("empty-text", [["e", "div", [], [["e", "p", [["p", "id", ["lit", "a"]]], [["t", ""]]]]]]),
@@ -458,6 +841,12 @@ FIXED += [
 ]
 FIXED_ORACLE_ONLY = [
     ("inner-html", [["e", "div", [], [["e", "p", [["p", "inner_html", ["lit", "<b>x</b>"]]], []]]]]),
+    # every InnerHtmlValue representation, an SVG element, next to other attributes
+    ("inner-html", [["e", "div", [], [["e", "p", [["p", "inner_html", ["str", "<b>x</b>&amp;"]]], []],
+                                      ["e", "span", [["p", "id", ["lit", "k"]], ["p", "inner_html", ["dv", "arc", "<i>a</i>b"]]], []],
+                                      ["e", "li", [["p", "inner_html", ["dv", "sr", "t<u>u</u>"]], ["p", "class", ["lit", "c"]]], []],
+                                      ["e", "b", [["p", "inner_html", ["dv", "osr", "<em>o</em>"]]], []]]]]),
+    ("inner-html", [["e", "div", [], [["e", "svg", [["p", "inner_html", ["lit", "<circle r=\"1\"></circle>"]]], []]]]]),
 ]
 # elements below <noscript>: noscript is read as an ordinary element by the oracle for these
 FIXED_NOSCRIPT = [
@@ -484,17 +873,21 @@ FIXED_GLOBAL_CLASS = [
 
 
 def comp_children(n):
-    """children list of a component node (Label has a text prop instead)"""
-    return [] if n[1] == "Label" else n[2]
+    """children list of a component node (Label has a text prop instead, Tabs has slots)"""
+    if n[1] == "Label":
+        return []
+    if n[1] == "Tabs":
+        return sum([t[2] or [] for t in n[2]], [])
+    return n[2]
 
 
 def comp_spreads(n):
-    return n[3] if len(n) > 3 else []
+    return n[3] if len(n) > 3 and n[1] != "Label" else []
 
 
 def has_component(t):
     for n in t:
-        if n[0] == "c":
+        if n[0] in ("c", "cm", "dt", "k"):
             return True
         if n[0] == "e" and (has_component(n[3]) or any(a[0] == "p" and a[1] == "inner_html" for a in n[2])):
             return True
@@ -503,31 +896,194 @@ def has_component(t):
     return False
 
 
+def E(tag, attrs, ch):
+    return ["e", tag, attrs, ch]
+
+
+# corner cases of the forms added by the anchor-coverage audit (coverage/C18.md); all always run
+FIXED_AUDIT = [
+    # SVG <use> under its two spellings, below a static HTML parent (inert path) — F-C18-i
+    ("svg-use", [E("div", [], [E("p", [_lit("id", "w")], [E("svg", [_lit("viewBox", "0 0 1 1")], [E("use_", [_lit("href", "#a")], [])])])])]),
+    ("svg-use", [E("div", [], [E("p", [_lit("id", "w")], [E("svg", [], [E("use", [_lit("href", "#a")], []), E("g", [], [])])])])]),
+    # a/script/title resolve to svg:: only as the ONLY child of an SVG element
+    ("svg-ambiguous", [E("div", [], [E("p", [_lit("id", "w")], [E("svg", [], [E("a", [_lit("href", "#x")], [["t", "a<b"]])])])])]),
+    ("svg-ambiguous", [E("div", [], [E("p", [_lit("id", "w")], [E("svg", [], [E("title", [], [["t", "a<b"]])])])])]),
+    ("svg-ambiguous", [E("svg", [], [E("g", [], [E("a", [_lit("xlink:href", "#x")], [["t", "t"]])])])]),
+    # … and a <script> resolved that way escapes its text, html::script / the inert path do not — F-C18-j (open)
+    ("svg-script", [E("div", [], [E("p", [_lit("id", "w")], [E("svg", [], [E("script", [], [["t", "a<b"]])])])])]),
+    ("svg-script", [E("svg", [], [E("script", [], [["t", "if (a<b && c) {}"]]), E("g", [], [])])]),
+    ("svg-script", [E("div", [], [E("p", [_lit("id", "w")], [E("svg", [], [E("script", [_lit("id", "s")], [["t", "safe"]]), E("g", [], [])])])])]),
+    # comments, doctype, unquoted text
+    ("syntax", [E("div", [], [E("p", [_lit("id", "a")], [["cm", "c"], ["t", "x"]])])]),
+    ("syntax", [["cm", "c"], E("p", [], [["t", "x"]])]),
+    ("syntax", [["dt"], E("html", [], [E("body", [], [E("p", [_lit("id", "a")], [["t", "x"]])])])]),
+    ("syntax", [E("div", [], [E("p", [_lit("id", "a")], [["r", "hello"]]), E("p", [], [["b", "d"], ["r", "world"]])])]),
+    ("syntax", [E("div", [], [E("p", [_lit("id", "a")], [["r", "a & b"]]), E("p", [], [["r", "a & b"], ["b", "d"]]),
+                              E("style", [_lit("id", "s")], [["r", "a & b"]])])]),
+    # instructions to the builder that render nothing, inside static subtrees
+    ("silent-attrs", [E("div", [], [E("button", [_lit("id", "b"), ["ev", "click"]], [["t", "x"]])])]),
+    ("silent-attrs", [E("div", [], [E("input", [_lit("id", "b"), ["pr", "value", "x"]], [])])]),
+    ("silent-attrs", [E("div", [], [E("p", [_lit("id", "b"), ["us"]], [["t", "x"]])])]),
+    ("silent-attrs", [E("div", [], [E("p", [_lit("id", "b"), ["nr", "p"]], [["t", "x"]])])]),
+    ("silent-attrs", [E("div", [], [E("p", [["ev", "keydown:capture"], ["ev", "my-event"], ["pr", "my-prop", "a\"b"]], [["t", "x"]])])]),
+    # {..attrs} on an element
+    ("spread", [E("div", [], [E("p", [_lit("id", "b"), ["sx", [_lit("data-sp", "1"), _lit("class", "k")]]], [["t", "x"]])])]),
+    ("spread", [E("div", [], [E("p", [_lit("class", "a"), ["sx", [_lit("class", "k"), ["ct", "z", True]]]], [["t", "x"]])])]),
+    ("spread", [E("p", [["sx", [["p", "data-sp", ["str", "a\"b"]]]], _lit("id", "after"), _lit("class", "c2")], [["t", "x"]])]),
+    # attribute count at the renderer's limit (26)
+    ("many-attrs", [E("div", [], [E("p", [_lit(x, str(i)) for i, x in enumerate(
+        ["id", "title", "lang", "dir", "role", "tabindex", "accesskey", "slot", "nonce", "part", "itemid", "itemprop", "itemref",
+         "itemtype", "is", "popover", "inputmode", "translate", "spellcheck", "draggable", "enterkeyhint", "autocapitalize",
+         "contenteditable", "data-a", "data-b"])], [["t", "x"]])])]),
+    # blocks and attribute values of every representation
+    ("value-kinds", [E("div", [], [E("p", [_lit("id", "a")], [["t", "t"]]), ["k", "int", 3], ["k", "chr", " "], ["k", "chr", "<"],
+                                   ["k", "fl", 1.5], ["k", "sr", "sr<"], ["k", "some", "o"], ["k", "none"], ["k", "vec", ["v1", "v2"]],
+                                   ["k", "unit"], ["k", "view", [E("b", [], [["t", "n"]])]], ["k", "clo", "c"], ["k", "then", "th", True],
+                                   ["k", "then", "no", False], ["k", "arc", "a&"], ["k", "oco", "o1"], ["k", "ocoo", "o2"], ["k", "ococ", "o3"]])]),
+    ("value-kinds", [E("div", [], [E("p", [_lit("id", "a")] + [["p", nm, ["dv", kd, "v<\"" + kd]] for nm, kd in zip(
+        ["title", "lang", "dir", "role", "accesskey", "data-a", "data-b", "slot"], DV_KINDS)] + [["p", "tabindex", ["dv", "int", "3"]]], [["t", "t"]])])]),
+    ("value-kinds", [E("div", [], [["k", "view", [E("section", [], [E("p", [_lit("id", "in")], [["t", "a<b"]]), ["b", "d"]])]],
+                                   E("p", [_lit("id", "out")], [["t", "x"]])])]),
+    # 16 / 17 / 33 children in every container
+    ("wide", [["t", str(i)] if i % 2 == 0 else E("b", [], [["t", str(i)]]) for i in range(17)]),
+    ("wide", [E("div", [], [["f", [["b", str(i)] if i % 3 == 0 else E("b", [], [["t", str(i)]]) for i in range(33)]]])]),
+    ("wide", [E("ul", [], [E("li", [], [["t", str(i)]]) for i in range(16)])]),
+    ("wide", [E("ul", [], [["t", str(i)] if i % 2 == 0 else E("b", [], [["t", str(i)]]) for i in range(257)])]),
+    ("wide", [["c", "Pass", [["b", str(i)] if i % 3 == 0 else E("b", [], [["t", str(i)]]) for i in range(17)], []]]),
+    ("wide", [["c", "Cond", [["b", str(i)] if i % 3 == 0 else E("b", [_lit("id", "i%d" % i)], [["t", str(i)]]) for i in range(18)], []]]),
+]
+FIXED_AUDIT_COMPONENT = [
+    [["c", "Wrap", [["t", "a<b"]], []]],                                   # ONE text child: passed without the closure
+    [["c", "Wrap", [["t", " lead & trail "]], []], ["c", "Cond", [["t", "\ttab "]], []]],
+    [["c", "Pass", [["t", "a<b"]], []]],
+    [["c", "Typed", [["k", "fmt", "a<1"]], [["sa", "id", "x"]]]],
+    [["c", "Cond", [["t", "only text"]], []]],
+    [["c", "Cond", [E("p", [_lit("id", "a")], [["t", "x"]])], [], {"rename": True}]],
+    [["c", "Frag", [E("b", [], [["t", "1"]]), ["t", "two"], E("i", [_lit("id", "k")], [["t", "3<"]])], []]],
+    [["c", "Typed", [E("p", [_lit("id", "a")], [["t", "x"]]), ["t", "y"]], []]],
+    # F-C18-k (open): the 17 children reach ChildrenFragment as 2 nodes
+    [["c", "Frag", [E("b", [], [["t", str(i)]]) for i in range(17)], []]],
+    [["c", "Frag", [E("b", [], [["t", str(i)]]) for i in range(16)], []]],
+    [["c", "Opt", [], [], {"nochildren": True}], ["c", "Opt", [], [], {"a": "A", "b": "B", "n": 1, "nochildren": True}],
+     ["c", "Opt", [E("b", [_lit("id", "z")], [["t", "kid"]])], [], {"a": "ns", "nostrip": True}]],
+    [["c", "Gen", [], [], {"ty": "i32", "v": 3}], ["c", "Gen", [], [], {"ty": "str", "v": "x<"}]],
+    [["c", "Tabs", [["sl", "a", [E("p", [_lit("id", "a")], [["t", "x"]])]], ["sl", "b<", [["t", "t"]]], ["sl", "c", None]], []]],
+    [["c", "Each", [E("li", [_lit("class", "k")], [["k", "item"]])], [], {"items": ["a", "b<"]}]],
+    [["c", "Wrap", [["t", "t"]], [["sp", "id", "x"], ["sp", "class", "k"], ["sp", "data-y", "1"], ["sp", "aria-label", "z"]]]],
+    [["c", "Wrap", [["t", "t"]], [["sa", "class", "k"], ["sa", "style", "a:b"], ["sa", "aria-label", "z"], ["ss", "color", "red"],
+                                 ["sa", "data-foo-bar", "1"]]]],
+    [["c", "Pass", [E("p", [_lit("class", "s")], [["t", "t"]]), E("b", [], [])], [["ss", "--v", "1px"], ["sp", "part", "a\"b"]]]],
+]
+FIXED_AUDIT_COMPONENT += [
+    # listeners / properties / directives / a {..attrs} block written on a component
+    [["c", "Wrap", [["t", "t"]], [["se", "click"], ["spr", "value", "x"], ["su"], ["sa", "id", "w"]]]],
+    [["c", "Pass", [E("p", [_lit("class", "s")], [["t", "t"]])], [["sb", [_lit("data-sp", "1"), _lit("class", "k"), ["ct", "z", True]]]]]],
+    # ONE unquoted text child
+    [["c", "Wrap", [["r", "hello"]], []]],
+    # a directive with a parameter on an element of a static subtree
+    [E("div", [], [E("p", [_lit("id", "b"), ["us", "pa\"ram"]], [["t", "x"]])])],
+]
+# a shorthand prop (`<Label text/>` with `text` in scope)
+FIXED_AUDIT_SHORTHAND = [
+    [E("p", [_lit("id", "k")], [["c", "Label", "sh<", "shorthand"], E("b", [], [["t", "z"]])])],
+]
+# clone: on a component / a slot (the generated function binds `extra` first)
+FIXED_AUDIT_CLONE = [
+    [["c", "Wrap", [E("p", [_lit("id", "a")], [["t", "x"]]), ["k", "ext"]], [], {"clone": True}]],
+    [["c", "Cond", [E("p", [_lit("id", "a")], [["t", "x"]]), ["k", "ext"]], [], {"clone": True}]],
+]
+FIXED_AUDIT_GCLASS = [
+    # the scope class next to components (their own elements do not get it), class: toggles, a nested view!, an identifier
+    ([E("div", [], [["c", "Wrap", [E("p", [_lit("id", "a")], [["t", "x"]])], []], E("span", [["ct", "on", True]], [["t", "y"]])])], "sc", False),
+    ([E("div", [], [E("p", [_lit("id", "a")], [["t", "x"]]), E("b", [_lit("class", "k")], [["t", "y"]])])], GC_VALUE, True),
+    ([E("div", [], [E("p", [_lit("id", "a")], [["t", "x"]]), ["k", "view", [E("i", [_lit("id", "n")], [["t", "z"]])]]])], "sc", False),
+]
+
+
+def _item(tpl, kind, **kw):
+    """compare = the template is expressible in the Coq AST; template! (variant 2) only for those (ViewTemplate
+    wants ToTemplate, which components / closures do not have)"""
+    it = dict(tpl=tpl, kind=kind, compare=modelable(tpl) and not kw.get("gclass"))
+    if "variants" not in kw and (not modelable(tpl) or any(x in json.dumps(tpl) for x in ('"k"', '"dv"'))):
+        it["variants"] = [0, 1]
+    it.update(kw)
+    if it.pop("compare_off", False):
+        it["compare"] = False
+    if it.get("streams") and not kw.get("force_streams") and any(x in json.dumps(tpl) for x in ('"c"', '"clo', '"view"')):
+        it["streams"] = False       # the streaming renderers of components / closures / nested views compile very slowly
+    it.pop("force_streams", None)
+    return it
+
+
+def no_dynamic_class(tpl):
+    """a dynamic class= next to a scope class is rejected by the macro"""
+    def fa(tag, attrs):
+        return [["p", "class", ["lit", a[2][1]]] if a[0] == "p" and a[1] == "class" and a[2][0] == "str" else a for a in attrs]
+    return sprinkle(None, tpl, fa)
+
+
 def generate(rng, tier):
+    fixed = True
+    for k, it in enumerate(generate_(rng, tier)):
+        if it is None:
+            fixed = False
+            continue
+        # the erase_components build renders the fixed cases, the sweeps and a sample of everything else
+        if fixed or (it["kind"] not in ("template", "below-noscript") and k % 4 == 0) or k % 16 == 0:
+            it["erase_variants"] = [v for v in it.get("variants", (0, 1, 2)) if v in (0, 1)]
+        yield it
+
+
+def generate_(rng, tier):
     n = 800 if tier == "quick" else 10000
     for kind, t in FIXED:
-        yield dict(tpl=t, kind=kind, compare=True)
+        yield dict(tpl=t, kind=kind, compare=True, streams=True, variants=[0, 1, 2, 3])
     for kind, t in FIXED_ORACLE_ONLY:
-        yield dict(tpl=t, kind=kind, compare=False, variants=[0, 1])
+        yield dict(tpl=t, kind=kind, compare=False, variants=[0, 1], streams=True)
     for kind, t in FIXED_GLOBAL_CLASS:
-        yield dict(tpl=t, kind=kind, compare=False, gclass="sc")
+        yield dict(tpl=t, kind=kind, compare=False, gclass="sc", streams=True)
     for t in FIXED_COMPONENT:
-        yield dict(tpl=t, kind="component", compare=False, variants=[0, 1])
+        yield dict(tpl=t, kind="component", compare=False, variants=[0, 1], streams=True)
     for t in FIXED_NOSCRIPT:
-        yield dict(tpl=t, kind="below-noscript", compare=True, noscript_html=True)
+        yield dict(tpl=t, kind="below-noscript", compare=True, noscript_html=True, streams=True)
+    for kind, t in FIXED_AUDIT:
+        # the model reads every <script> as HTML raw text: below SVG it is compared by the oracle only (wf excludes it)
+        yield _item(t, kind, streams=(len(json.dumps(t)) < 4000), **({"compare_off": True} if kind == "svg-script" else {}))
+    for t in FIXED_AUDIT_COMPONENT:
+        yield _item(t, "component", streams=True, force_streams=True)
+    for t in FIXED_AUDIT_CLONE:
+        yield _item(t, "component", prelude='let extra = s("cl");')
+    for t in FIXED_AUDIT_SHORTHAND:
+        yield _item(t, "component", prelude='let text = "sh<";')
+    for t, g, ident in FIXED_AUDIT_GCLASS:
+        yield _item(t, "global-class", gclass=g, gclass_ident=ident, streams=True)
+    for it in gen_sweep(rng):
+        yield _item(it["tpl"], it["kind"], streams=True, variants=[0, 1])     # the twin is the builder path
+    yield None                                   # end of the fixed part
     for i in range(n):
-        if i % 25 in (24, 3):
+        m = i % 25
+        if m == 24:
             yield dict(tpl=gen_component_template(rng), kind="component", compare=False, variants=[0, 1])
-        elif i % 25 in (6, 18):
-            yield dict(tpl=gen_noscript_template(rng), kind="below-noscript", compare=True, noscript_html=True)
-        elif i % 25 == 12:
-            # the scope-class form (compared only): static templates, so that the inert path is taken;
-            # a dynamic class= next to a global class is rejected by the macro
-            t = [n for n in gen_template_static(rng)]
-            yield dict(tpl=t, kind="global-class", compare=False, gclass=pick(rng, ["sc", "s-1", "q&r", "a<\"b"]))
+        elif m == 3:
+            yield _item(gen_component2_template(rng), "component")
+        elif m in (6, 18):
+            yield dict(tpl=gen_noscript_template(rng), kind="below-noscript", compare=True, noscript_html=True, streams=(i % 50 < 25))
+        elif m == 12:
+            # the scope-class form (compared only): static templates, so that the inert path is taken, or any
+            # template without a dynamic class= (rejected by the macro next to a scope class)
+            t = gen_template_static(rng) if i % 50 < 25 else no_dynamic_class(gen_template(rng))
+            g = pick(rng, ["sc", "s-1", "q&r", "a<\"b", GC_VALUE])
+            yield _item(t, "global-class", gclass=g, gclass_ident=(g == GC_VALUE))
+        elif m == 15:
+            t = gen_wide_template(rng)
+            yield _item(t, "wide", streams=(i % 100 < 25), variants=([0, 1] if i % 50 < 25 or not modelable(t) else [0, 1, 2]))
+        elif m == 20:
+            yield _item(gen_syntax_template(rng), "syntax", streams=(i % 50 < 25))
+        elif m == 22:
+            yield _item(gen_values_template(rng), "value-kinds", streams=(i % 50 < 25))
         else:
             t = gen_template(rng)
-            yield dict(tpl=t, kind="template", compare=True)
+            yield dict(tpl=t, kind="template", compare=True, streams=(i % 6 == 0))
 
 
 # ------------------------------------------------------------------------------------------ case encoding
@@ -541,11 +1097,18 @@ def html_name(tag, name):
     return name
 
 
+def html_tag(tag):
+    return "use" if tag == "use_" else tag
+
+
 def enc_attr(a, tag=""):
     k = a[0]
+    if k in ("ev", "pr", "us", "nr", "sx"):
+        raise ValueError("not expressible in the model: %r" % (k,))
     if k == "p":
         v = a[2]
         av = {"lit": lambda: [0, v[1]], "none": lambda: [1], "str": lambda: [2, v[1]],
+              "dv": lambda: [2, v[2]],           # another representation of a dynamic string / scalar
               "num": lambda: [2, v[2]],          # a non-string literal: not static, renders its Display
               "bool": lambda: [3, int(v[1])], "blit": lambda: [3, int(v[1])],
               "opt": lambda: [4] if v[1] is None else [5, v[1]]}[v[0]]()
@@ -565,10 +1128,26 @@ def enc_node(n):
     if n[0] == "b":
         return [1, n[1]]
     if n[0] == "e":
-        return [2, n[1], [enc_attr(a, n[1]) for a in n[2]], [enc_node(c) for c in n[3]]]
+        # `<use_>` is the keyword-free spelling of SVG `<use>`: both paths resolve it (compared, not modelled)
+        return [2, html_tag(n[1]), [enc_attr(a, n[1]) for a in n[2]], [enc_node(c) for c in n[3]]]
     if n[0] == "f":
         return [3, [enc_node(c) for c in n[1]]]
-    raise ValueError("not expressible in the model: %r" % (n[0],))
+    if n[0] == "r":
+        return [0, n[1]]                  # unquoted text: the same two code paths as a literal
+    if n[0] == "k" and n[1] in BLOCK_LIKE_STRING:
+        return [1, str(n[2])]             # renders like a {String} block
+    raise ValueError("not expressible in the model: %r" % (n[:2],))
+
+
+BLOCK_LIKE_STRING = ("sr", "arc", "oco", "ocoo", "ococ", "int", "fl", "chr", "some")
+
+
+def modelable(tpl):
+    try:
+        to_case(tpl)
+        return True
+    except ValueError:
+        return False
 
 
 def to_case(tpl):
@@ -585,8 +1164,12 @@ def twin(tpl):
             out.append(["e", n[1], list(n[2]) + [TWIN], twin(n[3])])
         elif n[0] == "f":
             out.append(["f", twin(n[1])])
+        elif n[0] == "c" and n[1] == "Tabs":
+            out.append(["c", n[1], [["sl", t[1], None if t[2] is None else twin(t[2])] for t in n[2]]] + list(n[3:]))
         elif n[0] == "c" and n[1] != "Label":
-            out.append(["c", n[1], twin(n[2])] + ([n[3]] if len(n) > 3 else []))
+            out.append(["c", n[1], twin(n[2])] + list(n[3:]))
+        elif n[0] == "k" and n[1] == "view":
+            out.append(["k", "view", twin(n[2])])
         else:
             out.append(n)
     return out
@@ -619,8 +1202,45 @@ def rust_name(n):
     return "r#" + n if n in RUST_KW else n
 
 
+def rust_dyn_value(kind, v):
+    """a dynamic attribute value / block of a given representation; every one of them displays as v"""
+    if kind == "sr":
+        return "sr(%s)" % rust_str(v)
+    if kind == "arc":
+        return "arc(%s)" % rust_str(v)
+    if kind in ("oco", "ocoo", "ococ"):
+        return "%s(%s)" % (kind, rust_str(v))
+    if kind == "clo":
+        return "move || s(%s)" % rust_str(v)
+    if kind == "osr":
+        return "Some(sr(%s))" % rust_str(v)
+    if kind == "cloopt":
+        return "move || so(%s)" % rust_str(v)
+    if kind == "int":
+        return "n(%s)" % v
+    if kind == "fl":
+        return "fl(%s)" % v
+    if kind == "chr":
+        return "ch(%s)" % RUST_CHARS[v]
+    raise ValueError(kind)
+
+
+
+
 def rust_attr(a):
     k = a[0]
+    if k == "ev":
+        return "on:%s=|_%s| {}" % (a[1], ": leptos::ev::CustomEvent" if "-" in a[1] else "")
+    if k == "pr":
+        return "prop:%s=%s" % (a[1], rust_str(a[2]))
+    if k == "us":
+        return "use:noop" if len(a) == 1 else "use:withp=%s" % rust_str(a[1])
+    if k == "nr":
+        return "node_ref={NodeRef::<leptos::html::%s>::new()}" % NODE_REF_TYPES[a[1]]
+    if k == "sx":
+        return "{..view! { <{..}%s/> }}" % "".join(" " + rust_attr(x) for x in a[1])
+    if k == "p" and a[2][0] == "dv":
+        return "%s={%s}" % (rust_name(a[1]), rust_dyn_value(a[2][1], a[2][2]))
     if k == "p":
         name, v = rust_name(a[1]), a[2]
         if v[0] == "lit":
@@ -653,12 +1273,104 @@ def rust_attr(a):
 
 
 def rust_spread(x):
-    """attributes written on a component: attr:name="v" | attr:name={s("v")} | class:name={bool}"""
+    """attributes written on a component: attr:name="v" | attr:name={s("v")} | class:name={bool} | style:prop="v" |
+    (after a {..} marker) name="v" """
     if x[0] == "sa":
         return "attr:%s=%s" % (x[1], rust_str(x[2]))
     if x[0] == "sd":
         return "attr:%s={s(%s)}" % (x[1], rust_str(x[2]))
+    if x[0] == "ss":
+        return "style:%s=%s" % (x[1], rust_str(x[2]))
+    if x[0] == "sp":
+        return "%s=%s" % (x[1], rust_str(x[2]))
+    if x[0] == "se":
+        return "on:%s=|_| {}" % x[1]
+    if x[0] == "spr":
+        return "prop:%s=%s" % (x[1], rust_str(x[2]))
+    if x[0] == "su":
+        return "use:noop"
+    if x[0] == "sb":
+        return "{..view! { <{..}%s/> }}" % "".join(" " + rust_attr(y) for y in x[1])
     return "class:%s={%s()}" % (x[1], "tb" if x[2] else "fb")
+
+
+def rust_spreads(spreads):
+    """the special forms first, then `{..}` and the plain attributes that follow it"""
+    first = [x for x in spreads if x[0] not in ("sp", "sb")]
+    plain = [x for x in spreads if x[0] == "sp"]
+    blocks = [x for x in spreads if x[0] == "sb"]
+    # a {..expr} block goes AFTER the `{..}` marker section: component_to_tokens compares the marker's position among
+    # all attributes with positions among the keyed attributes only, so a block before the marker makes the first plain
+    # attribute after it a prop (a compile error: such a template is not accepted)
+    return ("".join(" " + rust_spread(x) for x in first) + (" {..}" + "".join(" " + rust_spread(x) for x in plain) if plain else "")
+            + "".join(" " + rust_spread(x) for x in blocks))
+
+
+def comp_props(n):
+    return n[4] if len(n) > 4 else {}
+
+
+def rust_block(n):
+    """{expr} children other than {String}"""
+    kind = n[1]
+    if kind == "none":
+        return "{no()}"
+    if kind == "unit":
+        return "{()}"
+    if kind == "vec":
+        if not n[2]:
+            return "{Vec::<String>::new()}"
+        return "{vec![%s]}" % ", ".join("s(%s)" % rust_str(x) for x in n[2])
+    if kind == "then":
+        return "{%s().then(|| s(%s))}" % ("tb" if n[3] else "fb", rust_str(n[2]))
+    if kind == "some":
+        return "{so(%s)}" % rust_str(n[2])
+    if kind == "view":
+        return "{view! { %s }}" % rust_template(n[2])
+    if kind == "fmt":
+        return "{format!(\"{}\", %s)}" % rust_str(n[2])
+    if kind == "ext":
+        return "{extra.clone()}"
+    if kind == "item":
+        return "{item}"
+    return "{%s}" % rust_dyn_value(kind, n[2])
+
+
+def rust_component(n):
+    name, kids, props = n[1], n[2], comp_props(n)
+    sp = rust_spreads(comp_spreads(n))
+    inner = "" if name == "Tabs" else " ".join(rust_node(c) for c in kids)
+    if name == "Cond":
+        slot = "slot:then" if props.get("rename") else "slot"
+        cl = " clone:extra" if props.get("clone") else ""
+        return "<Cond%s><Then %s%s>%s</Then></Cond>" % (sp, slot, cl, inner)
+    if name == "Tabs":
+        tabs = []
+        for t in kids:                                     # ["sl", name, kids | None]
+            if t[2] is None:
+                tabs.append("<Tab slot name=%s/>" % rust_str(t[1]))
+            else:
+                tabs.append("<Tab slot name=%s>%s</Tab>" % (rust_str(t[1]), " ".join(rust_node(c) for c in t[2])))
+        return "<Tabs%s>%s</Tabs>" % (sp, " ".join(tabs))
+    if name == "Opt":
+        pr = ""
+        if props.get("a") is not None:
+            pr += (" nostrip:a={so(%s)}" if props.get("nostrip") else " a={s(%s)}") % rust_str(props["a"])
+        if props.get("b") is not None:
+            pr += " b=%s" % rust_str(props["b"])
+        if props.get("n") is not None:
+            pr += " n=%d" % props["n"]
+        if props.get("nochildren"):
+            return "<Opt%s%s/>" % (pr, sp)
+        return "<Opt%s%s>%s</Opt>" % (pr, sp, inner)
+    if name == "Gen":
+        if props["ty"] == "i32":
+            return "<Gen<i32> v=%d%s/>" % (props["v"], sp)
+        return "<Gen v=%s%s/>" % (rust_str(props["v"]), sp)
+    if name == "Each":
+        return "<Each items={vec![%s]} let:item%s>%s</Each>" % (", ".join("s(%s)" % rust_str(x) for x in props["items"]), sp, inner)
+    cl = " clone:extra" if props.get("clone") else ""
+    return "<%s%s%s>%s</%s>" % (name, cl, sp, inner, name)
 
 
 def rust_node(n):
@@ -670,12 +1382,16 @@ def rust_node(n):
         return "<>" + " ".join(rust_node(c) for c in n[1]) + "</>"
     if n[0] == "c":
         if n[1] == "Label":
-            return "<Label text=%s/>" % rust_str(n[2])
-        sp = "".join(" " + rust_spread(x) for x in comp_spreads(n))
-        kids = " ".join(rust_node(c) for c in n[2])
-        if n[1] == "Cond":
-            return "<Cond%s><Then slot>%s</Then></Cond>" % (sp, kids)
-        return "<%s%s>%s</%s>" % (n[1], sp, kids, n[1])
+            return "<Label text/>" if len(n) > 3 else "<Label text=%s/>" % rust_str(n[2])      # shorthand: `let text` in scope
+        return rust_component(n)
+    if n[0] == "cm":
+        return "<!-- %s -->" % rust_str(n[1])
+    if n[0] == "dt":
+        return "<!DOCTYPE html>"
+    if n[0] == "r":
+        return n[1]
+    if n[0] == "k":
+        return rust_block(n)
     tag, attrs, ch = n[1], n[2], n[3]
     a = "".join(" " + rust_attr(x) for x in attrs)
     if tag in VOID:
@@ -687,36 +1403,74 @@ def rust_template(tpl):
     return " ".join(rust_node(n) for n in tpl)
 
 
-def rust_fn(idx, tpl, variants=(0, 1, 2), gclass=None):
+def gclass_src(item):
+    if item.get("gclass") is None:
+        return ""
+    return "class = GC, " if item["gclass"] == GC_VALUE and item.get("gclass_ident") else "class = %s, " % rust_str(item["gclass"])
+
+
+
+
+def rust_fn(idx, item, gen_dir, erase=False):
+    tpl, variants = item["tpl"], item.get("variants", (0, 1, 2))
+    if erase:
+        # the --cfg erase_components build: view! and its twin only (template! is view! there), to_html() only
+        variants = [v for v in variants if v in item.get("erase_variants", ())]
+        item = dict(item, streams=False)
     lines = ["pub fn t%d(out: &mut Out) {" % idx]
-    pre = "" if gclass is None else "class = %s, " % rust_str(gclass)
+    pre = gclass_src(item)
     src = pre + rust_template(tpl)
+    let = item.get("prelude", "")
+    body = lambda mac, text: "|| { %s%s! { %s } }" % (let + " " if let else "", mac, text)
+    r = "render" if item.get("streams") else "render1"
     if 0 in variants:
-        lines.append("    out.push((%d, 0, view! { %s }.to_html()));" % (idx, src))
+        lines.append("    %s(out, %d, 0, %s);" % (r, idx, body("view", src)))
     if 1 in variants:
-        lines.append("    out.push((%d, 1, view! { %s }.to_html()));" % (idx, pre + rust_template(twin(tpl))))
+        lines.append("    %s(out, %d, 1, %s);" % (r, idx, body("view", pre + rust_template(twin(tpl)))))
     if 2 in variants:
-        lines.append("    out.push((%d, 2, template! { %s }.to_html()));" % (idx, src))
+        lines.append("    render1(out, %d, 2, %s);" % (idx, body("template", src)))
+    if 3 in variants:
+        # include_view!: the same tokens read from a file (named by their hash: a changed template is a changed shard)
+        fn = os.path.join(gen_dir, "inc_%s.view" % C.case_hash(src))
+        if not os.path.exists(fn):
+            with open(fn, "w") as f:
+                f.write(src)
+        lines.append("    render1(out, %d, 3, || { %sinclude_view!(%s) });" % (idx, let + " " if let else "", rust_str(fn)))
     lines.append("}")
     return "\n".join(lines)
 
 
-def write_shards(items, gen_dir):
-    """items[i]['tpl'] -> gen_dir/shard_k.rs; returns True if the files changed"""
+def compile_cost(item):
+    """rough relative cost of compiling one item (measured: components ~4x per character, the streaming exits
+    triple the monomorphised renderers), to spread the work evenly over the binaries"""
+    txt = json.dumps(item["tpl"])
+    n = len(rust_template(item["tpl"]))
+    v = len(item.get("variants", (0, 1, 2)))
+    w = 1.0 + (2.0 if item.get("streams") else 0.0)
+    if '"c"' in txt:
+        w *= 4
+    if '"clo' in txt or '"view"' in txt:
+        w *= 2
+    return 200 + n * v * w
+
+
+def write_shards(items, gen_dir, erase=False):
+    """items[i]['tpl'] -> gen_dir/shard_k.rs (erase: only the items marked for the erase_components build)"""
     os.makedirs(gen_dir, exist_ok=True)
     shards = [[] for _ in range(N_BINS)]
-    # spread by size so that the eight compilations take similar time
-    order = sorted(range(len(items)), key=lambda i: -len(rust_template(items[i]["tpl"])))
+    # spread by estimated cost so that the compilations take similar time
+    cost = [compile_cost(it) for it in items]
+    order = sorted([i for i in range(len(items)) if not erase or items[i].get("erase_variants")], key=lambda i: -cost[i])
     load = [0] * N_BINS
     for i in order:
         k = load.index(min(load))
         shards[k].append(i)
-        load[k] += 200 + len(rust_template(items[i]["tpl"]))
+        load[k] += cost[i]
     for k in range(N_BINS):
         ids = sorted(shards[k])
         body = ["// generated by gen/c18.py — do not edit"]
         for i in ids:
-            body.append(rust_fn(i, items[i]["tpl"], items[i].get("variants", (0, 1, 2)), items[i].get("gclass")))
+            body.append(rust_fn(i, items[i], gen_dir, erase))
         body.append("pub const TEMPLATES: &[(u32, fn(&mut Out))] = &[%s];" % ", ".join("(%d, t%d)" % (i, i) for i in ids))
         text = "\n".join(body) + "\n"
         p = os.path.join(gen_dir, "shard_%d.rs" % k)
@@ -763,8 +1517,23 @@ def add_text(children, s):
         children.append(("text", s))
 
 
-def parse_html(s, tolerate_title=False, noscript_html=False):
-    """HTML subset -> forest of ('text', str) | ('elem', tag, attrs, children); comments dropped, text merged"""
+FOREIGN_ROOTS = ("svg", "math")
+
+
+def in_foreign(stack):
+    """is the open element in foreign content? (inside <svg>/<math>, not inside an HTML integration point)"""
+    for tag, _, _ in reversed(stack):
+        if tag in FOREIGN_ROOTS:
+            return True
+        if tag == "foreignObject":
+            return False
+    return False
+
+
+def parse_html(s, tolerate_title=False, noscript_html=False, tolerate_svg_script=False):
+    """HTML subset -> forest of ('text', str) | ('elem', tag, attrs, children); comments dropped, text merged.
+    In foreign content (below <svg> / <math>) script, style, title, textarea are ordinary elements: their content is
+    markup with character references (HTML parsing rules for foreign content)."""
     root = []
     stack = [(None, None, root)]
     i, n = 0, len(s)
@@ -773,6 +1542,11 @@ def parse_html(s, tolerate_title=False, noscript_html=False):
         if s.startswith("<!--", i):
             j = s.find("-->", i + 4)
             i = n if j < 0 else j + 3
+            continue
+        if s[i:i + 9].lower() == "<!doctype":
+            j = s.find(">", i)
+            cur.append(("elem", "!doctype", {"value": s[i + 9:(n if j < 0 else j)].strip()}, []))
+            i = n if j < 0 else j + 1
             continue
         if s.startswith("<!", i) or s.startswith("<?", i):
             j = s.find(">", i)
@@ -809,8 +1583,16 @@ def parse_html(s, tolerate_title=False, noscript_html=False):
                 j = am.end()
             i = j + 1
             attrs = norm_attrs(pairs)
-            if tag in H_VOID:
+            foreign = in_foreign(stack)
+            if tag in H_VOID and not foreign:
                 cur.append(("elem", tag, attrs, []))
+            elif foreign and tag == "script" and tolerate_svg_script:
+                em = re.compile(r"</script[\s/>]", re.I).search(s, i)       # F-C18-j: the text is not looked at
+                cur.append(("elem", tag, attrs, []))
+                g = s.find(">", em.start()) if em else -1
+                i = n if g < 0 else g + 1
+            elif foreign and (tag in H_RAW or tag in H_RCDATA):
+                stack.append((tag, attrs, []))
             elif (tag in H_RAW and not (noscript_html and tag == "noscript")) or tag in H_RCDATA:
                 em = re.compile(r"</%s[\s/>]" % re.escape(tag), re.I).search(s, i)
                 end = em.start() if em else n
@@ -845,6 +1627,14 @@ def expect_attrs(attrs, tag=""):
     pairs = []
     for a in attrs:
         k = a[0]
+        if k in ("ev", "pr", "us", "nr"):
+            continue                      # listeners, DOM properties, directives, node refs: nothing in the HTML
+        if k == "sx":
+            pairs += list(_pairs_of(expect_attrs(a[1], tag)))
+            continue
+        if k == "p" and a[2][0] == "dv":
+            pairs.append((html_name(tag, a[1]), str(a[2][2])))
+            continue
         if k == "p":
             a = [a[0], html_name(tag, a[1]), a[2]]
             v = a[2]
@@ -870,6 +1660,17 @@ def expect_attrs(attrs, tag=""):
     return norm_attrs(pairs)
 
 
+def _pairs_of(d):
+    """attribute dict of norm_attrs -> (name, value) pairs again"""
+    for k, v in d.items():
+        if k == "class":
+            yield (k, " ".join(sorted(v)))
+        elif k == "style":
+            yield (k, ";".join(sorted(v)))
+        else:
+            yield (k, v)
+
+
 def spread_onto(roots, spreads):
     """attributes written on a component land on every root element of the view it returns"""
     if not spreads:
@@ -879,35 +1680,127 @@ def spread_onto(roots, spreads):
         if r[0] == "text":
             out.append(r)
             continue
-        a = dict(r[2])
+        pairs = list(_pairs_of(r[2]))
         for x in spreads:
-            if x[0] in ("sa", "sd"):
-                a[x[1]] = x[2]
+            if x[0] in ("sa", "sd", "sp"):
+                pairs.append((x[1], x[2]))
+            elif x[0] == "ss":
+                pairs.append(("style", "%s:%s" % (x[1], x[2])))
+            elif x[0] in ("se", "spr", "su"):
+                pass                                            # listeners, properties, directives: nothing in the HTML
+            elif x[0] == "sb":
+                pairs += list(_pairs_of(expect_attrs(x[1], r[1])))
             elif x[2]:
-                a["class"] = frozenset(a.get("class", frozenset()) | {x[1]})
-        out.append(("elem", r[1], a, r[3]))
+                pairs.append(("class", x[1]))
+        out.append(("elem", r[1], norm_attrs(pairs), r[3]))
     return out
 
 
-def expect(tpl, out=None):
-    """the tree the template denotes (written independently of Html/Macro.v's [denote])"""
+def expect_block(n, out):
+    kind = n[1]
+    if kind in ("none", "unit"):
+        return
+    if kind == "vec":
+        for x in n[2]:
+            add_text(out, x)
+    elif kind == "then":
+        if n[3]:
+            add_text(out, n[2])
+    elif kind == "view":
+        expect(n[2], out)
+    elif kind == "ext":
+        add_text(out, "cl")
+    elif kind == "item":
+        raise ValueError("{item} outside <Each>")
+    else:
+        add_text(out, str(n[2]))
+
+
+def subst_item(tpl, item):
+    """the children of <Each let:item> with {item} := item"""
+    out = []
+    for n in tpl:
+        if n[0] == "k" and n[1] == "item":
+            out.append(["b", item])
+        elif n[0] == "e":
+            out.append(["e", n[1], n[2], subst_item(n[3], item)])
+        elif n[0] == "f":
+            out.append(["f", subst_item(n[1], item)])
+        else:
+            out.append(n)
+    return out
+
+
+def produces_node(n):
+    """does node_to_tokens yield a view for this child? (comments and empty literals do not)"""
+    return not (n[0] in ("cm",) or (n[0] == "t" and n[1] == ""))
+
+
+FRAG_CHUNKED = [False]
+
+
+def expect_component(n, scope=None):
+    """root nodes of the view the harness component returns (harness/macro/src/lib.rs)"""
+    name, kids, props = n[1], n[2], comp_props(n)
+    ex = lambda t, out=None: expect(t, out, scope)
+    if name == "Label":
+        ch = []
+        add_text(ch, n[2])
+        return [("elem", "label", {}, ch)]
+    if name == "Wrap":
+        return [("elem", "section", {"class": frozenset(["w"])}, ex(kids))]
+    if name == "Cond":
+        return [("elem", "div", {"class": frozenset(["cond"])}, ex(kids))]
+    if name == "Typed":
+        return [("elem", "article", {}, ex(kids))]
+    if name == "Frag":
+        nodes = [k for k in kids if produces_node(k)]
+        if FRAG_CHUNKED[0] and len(nodes) > 16:
+            # F-C18-k: what the code does — the 16-tuples the macro nests are the nodes of the fragment
+            return [("elem", "ol", {}, [("elem", "li", {}, ex(g)) for g in chunks(nodes, 16)])]
+        return [("elem", "ol", {}, [("elem", "li", {}, ex([k])) for k in nodes])]
+    if name == "Opt":
+        pairs = []
+        if props.get("a") is not None:
+            pairs.append(("data-a", props["a"]))
+        pairs.append(("data-b", props.get("b") or ""))
+        pairs.append(("data-n", str(7 if props.get("n") is None else props["n"])))
+        return [("elem", "i", norm_attrs(pairs), [] if props.get("nochildren") else ex(kids))]
+    if name == "Gen":
+        ch = []
+        add_text(ch, str(props["v"]))
+        return [("elem", "u", {}, ch)]
+    if name == "Tabs":
+        return [("elem", "nav", {}, [("elem", "span", norm_attrs([("data-name", t[1])]), [] if t[2] is None else ex(t[2]))
+                                     for t in kids])]
+    if name == "Each":
+        ch = []
+        for it in props["items"]:
+            ex(subst_item(kids, it), ch)
+        return [("elem", "ul", {}, ch)]
+    return ex(kids)                         # Pass: the children themselves are the roots
+
+
+def expect(tpl, out=None, scope=None):
+    """the tree the template denotes (written independently of Html/Macro.v's [denote]); scope = the scope class of
+    `view! { class = scope, .. }`: every element WRITTEN IN THIS view! carries it (not the elements a component adds,
+    not those of a nested view! in a block)"""
     out = [] if out is None else out
     for n in tpl:
         if n[0] in ("t", "b"):
             add_text(out, n[1])
         elif n[0] == "f":
-            expect(n[1], out)
+            expect(n[1], out, scope)
+        elif n[0] == "cm":
+            continue                                # comments are dropped by the macro
+        elif n[0] == "dt":
+            out.append(("elem", "!doctype", {"value": "html"}, []))     # the declaration, kept as a pseudo element
+        elif n[0] == "r":
+            add_text(out, n[1])
+        elif n[0] == "k":
+            expect_block(n, out)
         elif n[0] == "c":
-            if n[1] == "Label":
-                ch = []
-                add_text(ch, n[2])
-                roots = [("elem", "label", {}, ch)]
-            elif n[1] == "Wrap":
-                roots = [("elem", "section", {"class": frozenset(["w"])}, expect(n[2]))]
-            elif n[1] == "Cond":
-                roots = [("elem", "div", {"class": frozenset(["cond"])}, expect(n[2]))]
-            else:                                   # Pass: the children themselves are the roots
-                roots = expect(n[2])
+            roots = expect_component(n, scope)
             for r in spread_onto(roots, comp_spreads(n)):
                 if r[0] == "text":
                     add_text(out, r[1])
@@ -917,11 +1810,14 @@ def expect(tpl, out=None):
             tag, attrs, ch = n[1], n[2], n[3]
             inner = [a for a in attrs if a[0] == "p" and a[1] == "inner_html"]
             if inner:
-                kids = parse_html(inner[0][2][1])
+                kids = parse_html(inner[0][2][2] if inner[0][2][0] == "dv" else inner[0][2][1])
                 attrs = [a for a in attrs if a not in inner]
             else:
-                kids = [] if tag in H_VOID else expect(ch)
-            out.append(("elem", tag, expect_attrs(attrs, tag), kids))
+                kids = [] if tag in H_VOID else expect(ch, None, scope)
+            a = expect_attrs(attrs, tag)
+            if scope is not None:
+                a = norm_attrs(list(_pairs_of(a)) + [("class", scope)])
+            out.append(("elem", html_tag(tag), a, kids))
     return out
 
 
@@ -993,11 +1889,30 @@ def add_scope(forest, cls):
     return out
 
 
-def oracle(item, impl, tolerate_title=False):
+def drop_svg_script_text(forest, foreign=False):
+    out = []
+    for n in forest:
+        if n[0] == "text":
+            out.append(n)
+        elif foreign and n[1] == "script":
+            out.append(("elem", n[1], n[2], []))
+        else:
+            out.append(("elem", n[1], n[2], drop_svg_script_text(n[3], (foreign or n[1] in FOREIGN_ROOTS) and n[1] != "foreignObject")))
+    return out
+
+
+def oracle(item, impl, tolerate_title=False, tolerate_svg_script=False, tolerate_frag=False):
     """impl = {variant: bytes list | '!…'}; the property demanded on the implementation alone"""
-    want = expect(item["tpl"])
-    if item.get("gclass") is not None:
-        want = add_scope(want, item["gclass"])
+    want_erase = expect(item["tpl"], None, item.get("gclass"))       # type-erased children are a flat list
+    FRAG_CHUNKED[0] = tolerate_frag
+    try:
+        want = expect(item["tpl"], None, item.get("gclass"))
+    finally:
+        FRAG_CHUNKED[0] = False
+    if tolerate_svg_script:
+        want, want_erase = drop_svg_script_text(want), drop_svg_script_text(want_erase)
+    _parse = parse_html
+    parse_html_ = lambda t, a, b: _parse(t, a, b, tolerate_svg_script)
     trees = {}
     for v in item.get("variants", (0, 1, 2)):
         o = impl.get(v)
@@ -1005,12 +1920,28 @@ def oracle(item, impl, tolerate_title=False):
             return "variant %d produced no output" % v
         if isinstance(o, str):
             return "variant %d: %s" % (v, o)
-        trees[v] = parse_html(decode(o), tolerate_title, bool(item.get("noscript_html")))
-    names = {0: "view! (inert path where eligible)", 1: "forced-dynamic twin", 2: "template! (builder path)"}
+        trees[v] = parse_html_(decode(o), tolerate_title, bool(item.get("noscript_html")))
+    names = {0: "view! (inert path where eligible)", 1: "forced-dynamic twin", 2: "template! (builder path)",
+             3: "include_view! of the same tokens"}
     for v in sorted(trees):
         got = strip_twin(trees[v]) if v == 1 else trees[v]
         if got != want:
             return "%s does not render the tree the template denotes: %s" % (names[v], first_diff(got, want))
+    # the same variants through the other exits (printed by the harness only when they differ from to_html())
+    # and from the --cfg erase_components build
+    exits = {1: "streamed in order (to_html_stream_in_order)", 2: "streamed out of order (to_html_stream_out_of_order)"}
+    for key in sorted(k for k in impl if k >= 10):
+        o, v, ex, er = impl[key], key % 10, (key // 10) % 10, key >= 100
+        what = names.get(v, "variant %d" % v) + (", " + exits[ex] if ex else "") + (", built with --cfg erase_components" if er else "")
+        if isinstance(o, str):
+            return "%s: %s" % (what, o)
+        got = parse_html_(decode(o), tolerate_title, bool(item.get("noscript_html")))
+        got = strip_twin(got) if v == 1 else got
+        if got != (want_erase if er else want):
+            return "%s does not render the tree the template denotes: %s" % (what, first_diff(got, want_erase if er else want))
+    for v in item.get("erase_variants", ()):
+        if 100 + v not in impl:
+            return "variant %d produced no output in the --cfg erase_components build" % v
     if 0 in trees and 1 in trees and strip_twin(trees[1]) != trees[0]:
         return "adding a dynamic attribute changed how static parts render: %s" % first_diff(trees[0], strip_twin(trees[1]))
     if 0 in trees and 2 in trees and trees[0] != trees[2]:
@@ -1022,28 +1953,65 @@ def title_adjacent(tpl):
     """KnownClass of F-C18-f (Html/MacroProofs.v [title_adjacent]): some <title> has two text children"""
     for n in tpl:
         if n[0] == "e":
-            if n[1] == "title" and len([c for c in n[3] if c[0] == "b" or (c[0] == "t" and c[1] != "")]) >= 2:
+            if n[1] == "title" and len([c for c in n[3] if c[0] in ("b", "r", "k") or (c[0] == "t" and c[1] != "")]) >= 2:
                 return True
             if title_adjacent(n[3]):
                 return True
         elif n[0] == "f" and title_adjacent(n[1]):
             return True
-        elif n[0] == "c" and n[1] != "Label" and title_adjacent(n[2]):
+        elif n[0] == "c" and title_adjacent(comp_children(n)):
+            return True
+        elif n[0] == "k" and n[1] == "view" and title_adjacent(n[2]):
+            return True
+    return False
+
+
+def svg_script(tpl, foreign=False):
+    """KnownClass of F-C18-j: a <script> with markup-significant text below an SVG / MathML element"""
+    for n in tpl:
+        if n[0] == "e":
+            if foreign and n[1] == "script" and any(ch in "".join(c[1] for c in n[3] if c[0] in ("t", "b", "r")) for ch in "<>&"):
+                return True
+            if svg_script(n[3], (foreign or n[1] in FOREIGN_ROOTS) and n[1] != "foreignObject"):
+                return True
+        elif n[0] == "f" and svg_script(n[1], foreign):
+            return True
+        elif n[0] == "c" and svg_script(comp_children(n), False):
             return True
     return False
 
 
 def classify(item, impl, model):
     """F-C18-f: the failure disappears when the literal `<!>` inside <title> is ignored, and the template has a
-    <title> with two text children; any other failure stays unclassified"""
+    <title> with two text children; F-C18-j: the failure disappears when the text of a <script> below an SVG element is
+    not looked at, and the template has such a script with markup-significant text; any other failure stays
+    unclassified"""
     if title_adjacent(item["tpl"]) and oracle(item, impl) and not oracle(item, impl, tolerate_title=True):
         return "F-C18-f"
+    if svg_script(item["tpl"]) and oracle(item, impl) and not oracle(item, impl, tolerate_svg_script=True):
+        return "F-C18-j"
+    if wide_fragment_children(item["tpl"]) and oracle(item, impl) and not oracle(item, impl, tolerate_frag=True):
+        return "F-C18-k"
     return None
 
 
+def wide_fragment_children(tpl):
+    """KnownClass of F-C18-k: a component taking ChildrenFragment (harness: Frag) with more than 16 child nodes"""
+    for n in tpl:
+        if n[0] == "c":
+            if n[1] == "Frag" and len([k for k in n[2] if produces_node(k)]) > 16:
+                return True
+            if wide_fragment_children(comp_children(n)):
+                return True
+        elif n[0] == "e" and wide_fragment_children(n[3]):
+            return True
+        elif n[0] == "f" and wide_fragment_children(n[1]):
+            return True
+    return False
+
+
 def describe(item):
-    pre = "" if item.get("gclass") is None else "class = %s, " % rust_str(item["gclass"])
-    return "view! { %s%s }" % (pre, rust_template(item["tpl"]))
+    return "view! { %s%s }" % (gclass_src(item), rust_template(item["tpl"]))
 
 
 def tree_of_sexp(f):
@@ -1069,10 +2037,30 @@ def cosmetic_difference(impl):
 
 
 # ------------------------------------------------------------------------------------------ running
+ERASE_EXE = {}      # main executable -> executable of the erase_components build of the same batch (or None)
+BUILD_TIMES = {}
+
+
 def build(items, gen_dir=GEN_DIR):
+    """the harness binaries for this batch; if some items ask for it, a second build of the same crate with
+    RUSTFLAGS --cfg erase_components (leptos then turns on leptos_macro's __internal_erase_components: the macro
+    emits type-erased children / spreads, tachys' HtmlElement::child collects AnyViews) in its own target dir"""
     write_shards(items, gen_dir)
     t0 = time.time()
     exe, log = C.build_harness(HARNESS, {"C18_GEN_DIR": gen_dir})
+    BUILD_TIMES["main"] = round(time.time() - t0, 1)
+    if exe is not None:
+        ERASE_EXE[exe] = None
+        if any(it.get("erase_variants") for it in items):
+            edir = gen_dir.rstrip("/") + "_erase"
+            write_shards(items, edir, erase=True)
+            tgt = os.path.join(C.BUILD, "target", "macro-erase" + ("-alt" + _TAG_REPO if _TAG_REPO else ""))
+            e2, log2 = C.build_harness(HARNESS, {"C18_GEN_DIR": edir, "CARGO_TARGET_DIR": tgt,
+                                                 "RUSTFLAGS": "--cfg %s --cfg erase_components -Awarnings" % C.GUARD})
+            if e2 is None:
+                return None, "[--cfg erase_components build]\n" + log2, time.time() - t0
+            ERASE_EXE[exe] = os.path.join(tgt, "release", os.path.basename(exe))
+            BUILD_TIMES["erase_components"] = round(time.time() - t0 - BUILD_TIMES["main"], 1)
     return exe, log, time.time() - t0
 
 
@@ -1082,8 +2070,12 @@ def run_impl(exe, items):
     d = os.path.dirname(exe)
     exes = [exe] + [os.path.join(d, "h_macro_%d" % k) for k in range(1, N_BINS)]
     t0 = time.time()
+    jobs = [(e, None) for e in exes]
+    if ERASE_EXE.get(exe):
+        d2 = os.path.dirname(ERASE_EXE[exe])
+        jobs += [(os.path.join(d2, os.path.basename(e)), {"C18_VARIANT_OFFSET": "100"}) for e in exes]
     with ThreadPoolExecutor(N_BINS) as ex:
-        outs = list(ex.map(lambda e: C.sh([e], 300), exes))
+        outs = list(ex.map(lambda j: C.sh([j[0]], 300, env=j[1]), jobs))
     res = [dict() for _ in items]
     for rc, out, _ in outs:
         for line in out.splitlines():
@@ -1139,8 +2131,8 @@ def evaluate(items, exe, model_exe):
             if isinstance(m, str) or isinstance(mt, str) or m is None or mt is None:
                 r["mismatch"] = "model failed: %r %r" % (m, mt)
             else:
-                exp = {0: m[0], 1: mt[0], 2: m[1]}
-                nm = {0: "view_html", 1: "view_html(twin)", 2: "builder_html"}
+                exp = {0: m[0], 1: mt[0], 2: m[1], 3: m[0]}
+                nm = {0: "view_html", 1: "view_html(twin)", 2: "builder_html", 3: "view_html (include_view!)"}
                 for v in it.get("variants", (0, 1, 2)):
                     if impl[i].get(v) != exp[v]:
                         r["mismatch"] = "variant %d: to_html() = %r, model %s = %r" % (
@@ -1190,18 +2182,24 @@ def template_valid(tpl, noscript_html=False):
     for n in tpl:
         if n[0] == "e":
             if n[1] in ("script", "style", "noscript"):
-                direct = "".join(c[1] for c in n[3] if c[0] in ("t", "b"))
+                direct = "".join(c[1] for c in n[3] if c[0] in ("t", "b", "r"))
                 if "</" in direct:
                     return False
                 if noscript_html and n[1] == "noscript" and ("<" in direct or "&" in direct):
                     return False
-                if n[1] != "noscript" and any(c[0] not in ("t", "b") for c in n[3]):
+                if n[1] != "noscript" and any(c[0] not in ("t", "b", "r") for c in n[3]):
                     return False
             if not template_valid(n[3], noscript_html):
                 return False
         elif n[0] == "f" and not template_valid(n[1], noscript_html):
             return False
-        elif n[0] == "c" and n[1] != "Label" and not template_valid(n[2], noscript_html):
+        elif n[0] == "c" and not template_valid(comp_children(n), noscript_html):
+            return False
+        elif n[0] == "k" and n[1] == "view" and not template_valid(n[2], noscript_html):
+            return False
+    # two unquoted texts next to each other are ONE text for rstml ("hello world"): not what the generator means
+    for x, y in zip(tpl, tpl[1:]):
+        if x[0] == "r" and y[0] == "r":
             return False
     return True
 
@@ -1246,7 +2244,7 @@ def nontrivial(item, model):
     if not isinstance(m, list):
         return False
     dyn = json.dumps(item["tpl"])
-    return m[0] != m[1] or any(x in dyn for x in ('"b"', '"str"', '"bool"', '"opt"', '"ct"', '"cu"', '"sp"', '"su"', '"num"', '"blit"'))
+    return m[0] != m[1] or any(x in dyn for x in ('"b"', '"str"', '"bool"', '"opt"', '"ct"', '"cu"', '"sp"', '"su"', '"num"', '"blit"', '"dv"', '"k"'))
 
 
 def setup():
@@ -1386,6 +2384,7 @@ def main(tier, seed, replay):
                                          note="extracted model and vm_compute evaluation of run_%s disagree" % PID))
             violations.append((p, " no-failing-input-found"))
     extras["build_wall_s"] = round(t_build, 1)
+    extras["build_wall_s_by_configuration"] = dict(BUILD_TIMES)
 
     for p, suffix in violations:
         print("VIOLATION property=%s replay=%s%s" % (PID, os.path.relpath(p, C.OUT), suffix))
@@ -1433,6 +2432,9 @@ def finish(tier, seed, t0, coq, results, violations, known_seen, t_impl, t_model
             oracle_failures=sum(1 for r in results if r["oracle"]),
             theorem_instances_evaluated=sum(1 for r in compared if r["instance"]),
             templates_taking_the_inert_path=inert_used,
+            templates_also_rendered_through_the_streaming_exits=sum(1 for r in results if r["item"].get("streams")),
+            templates_also_built_with_erase_components=sum(1 for r in results if r["item"].get("erase_variants")),
+            templates_through_include_view=sum(1 for r in results if 3 in r["item"].get("variants", ())),
             class_style_text_differs_between_paths_same_set=cosmetic,
             corpus_cases=n_corpus, case_kinds=hist, samples=samples,
             known_findings_seen=known_seen,
